@@ -24,6 +24,7 @@ OBLIGATIONS = [
     (P + "miss_after_dropped_store", "after a store that could not be performed the key misses (the previous value is gone)"),
     (P + "live_entry_always_found", "no limit, no allocation failure: the concrete answers equal the specification's (a live entry is always found)"),
     (P + "copy_failure_handled", "the generated handler of the value-copy bad_alloc removes the previous entry (D9 fixed in the source)"),
+    (P + "d9_unfixed_counterexample", "with the old handler (plain return) the witness history serves the superseded value: refinement fails, the fixed model misses"),
 ]
 
 TRUSTED = [
